@@ -41,11 +41,12 @@ FAULT_KINDS = ["stale_copy_signed", "duplicate_pass", "wrong_key_pass", "db_stat
 PROBES = ["kind:p2pk", "kind:p2pkh", "kind:multisig", "kind:p2sh-multisig", "kind:p2wpkh", "kind:p2wsh-multisig",
           "kind:p2sh-p2wpkh", "kind:p2sh-p2wsh-multisig", "n>=16", "m>=10", "uncompressed_key", "hash_type_non_all",
           "anyonecanpay", "sighash_single_no_output", "partial_then_complete", "order_permutation_checked",
-          "supply_dict", "supply_wifs", "supply_keychain", "coin_bch", "coin_btg", "coin_ltc", "coin_other",
+          "supply_dict", "supply_wifs", "supply_keychain", "supply_keychain_hd", "backend_pure_python", "coin_bch", "coin_btg", "coin_ltc", "coin_other",
           "wire_hex", "wire_bin", "wire_unspents", "txid_stable_after_witness_sign", "digest_at_seam_checked",
           "sighash_direct_256", "codeseparator_script", "noncommitted_change_still_valid", "committed_change_invalidates",
           "revalidate_fresh_equal", "inputs>=253", "spendable_form_text", "spendable_form_dict", "spendable_form_bin", "wire_big_inputs", "wire_big_outputs",
-          "wire_big_out_script", "wire_big_in_script", "wire_big_witness_item", "wire_big_witness_count"]
+          "wire_big_out_script", "wire_big_in_script", "wire_big_witness_item", "wire_big_witness_count", "wire_tx_witness",
+          "wire_tx_witness_only_empty_items"]
 
 _STD = None
 
@@ -91,7 +92,30 @@ def gen_plan(rng, tier, index, config=None):
                                 ("MONA", 4)])
     sigkind = {"BCH": "bch", "BTG": "btg"}.get(net, "btc")
     nkeys = r.between(3, 8)
-    keys = [{"d": r.between(1, C.n - 1), "compressed": True} for _ in range(nkeys)]
+    hd = None
+    if r.chance(0.3):
+        # the cosigners' keys are children of one BIP32 root; the planner derives them with the model
+        from dsim.models import bip32 as mb32
+        hd = {"seed": r.bytes(16).hex(), "paths": []}
+        root = mb32.master(bytes.fromhex(hd["seed"]))
+
+    def new_key():
+        if hd is None or root is None:
+            return {"d": r.between(1, C.n - 1), "compressed": True}
+        from dsim.models import bip32 as mb32
+        while True:
+            a, b, hard = r.below(3), r.below(1000), r.chance(0.4)
+            path = "%d%s/%d" % (a, "H" if hard else "", b)
+            if path in hd["paths"]:
+                continue
+            n1 = mb32.ckd_priv(root, a + (mb32.HARD if hard else 0))
+            n2 = mb32.ckd_priv(n1, b) if n1 else None
+            if n2 is None:
+                continue
+            hd["paths"].append(path)
+            return {"d": n2["k"], "compressed": True, "path": path}
+
+    keys = [new_key() for _ in range(nkeys)]
     nin = r.weighted([(1, 5), (2, 4), (3, 2), (4, 1)])
     inputs = []
     for _ in range(nin):
@@ -99,9 +123,9 @@ def gen_plan(rng, tier, index, config=None):
         kind = r.pick(kinds)
         m, n = _mn(r, kind)
         while len(keys) < n:
-            keys.append({"d": r.between(1, C.n - 1), "compressed": True})
+            keys.append(new_key())
         ks = r.sample(range(len(keys)), n)
-        if kind not in WITNESS_KINDS and r.chance(0.2):
+        if kind not in WITNESS_KINDS and hd is None and r.chance(0.2):  # (BIP32 keys are compressed by definition)
             keys[ks[0]]["compressed"] = False
         inputs.append({"kind": kind, "m": m, "keys": ks, "value": r.pick([546, 10**5, 10**8, r.between(1, 21 * 10**14)]),
                        "prev": r.bytes(32).hex(), "idx": r.pick([0, 1, 7, 0xFFFFFFFE]),
@@ -145,11 +169,12 @@ def gen_plan(rng, tier, index, config=None):
                 ks = [-1 - r.below(3)]   # keys nobody listed
             else:
                 ks = []
-            st = {"op": "sign", "copy": cp, "keys": ks, "supply": r.weighted([("dict", 5), ("wifs", 3), ("keychain", 3)]),
+            st = {"op": "sign", "copy": cp, "keys": ks, "supply": r.weighted([("dict", 5), ("wifs", 3), ("keychain", 3),
+                                                                                ("keychain_hd", 4 if hd else 0)]),
                   "hash_type": r.pick(hts), "inputs": None if r.chance(0.7) else [j for j in range(nin) if r.chance(0.6)]}
-            if st["supply"] == "keychain" and r.chance(0.25):
+            if st["supply"].startswith("keychain") and r.chance(0.25):
                 st["db_fault"] = r.between(1, 6)
-            if st["supply"] == "keychain" and r.chance(0.1):
+            if st["supply"].startswith("keychain") and r.chance(0.1):
                 st["clear_secrets"] = True
             steps.append(st)
         elif op == "send":
@@ -194,7 +219,17 @@ def gen_plan(rng, tier, index, config=None):
             r.shuffle(perm)
             steps.append({"op": "permute", "passes": passes, "perm": perm})
     steps.append({"op": "validate", "copy": "c0", "how": "each"})
-    return {"world": NAME, "config": {"name": net, "network": net, "sig": sigkind, "keys": keys}, "steps": steps}
+    backend = "pure" if (config is None and sigkind == "btc" and hd is None and r.chance(0.03)) else "native"
+    if backend == "pure":
+        # the pure-Python generator costs ~50 ms per multiplication: keep the history short and dictionary-supplied
+        steps = [st for st in steps if st.get("op") in ("build", "sign", "validate", "tamper", "revert")][:7]
+        for st in steps:
+            if st.get("op") == "sign":
+                st["supply"] = "dict"
+                st.pop("db_fault", None)
+                st.pop("clear_secrets", None)
+    return {"world": NAME, "config": {"name": net + ("-hd" if hd else "") + ("-pure" if backend == "pure" else ""), "network": net,
+                                      "sig": sigkind, "keys": keys, "hd": hd, "backend": backend}, "steps": steps}
 
 
 # ---------------------------------------------------------------------------------------------
@@ -290,7 +325,7 @@ def execute(plan, ctx):
     W.coin = {"sig": cfg["sig"]}
     W.keys = []
     for k in cfg["keys"]:
-        W.keys.append({"d": k["d"], "compressed": k["compressed"], "P": C.mul(k["d"], C.G)})
+        W.keys.append({"d": k["d"], "compressed": k["compressed"], "P": C.mul(k["d"], C.G), "path": k.get("path")})
     W.extra = {}
     W.copies = {}
     W.scripts = []
@@ -305,6 +340,12 @@ def execute(plan, ctx):
         ctx.probe("coin_other")
     # the VM -> ECDSA seam
     real_gen = BitcoinVM.generator_for_signature_type(1)
+    W.hd = cfg.get("hd")
+    if cfg.get("backend") == "pure":
+        from dsim.seams import backends
+        cls, _ = backends.replica_class("pure")
+        real_gen = cls(C.p, C.a, C.b, C.G, C.n, entropy_f=backends.entropy_f_for(b"\x07" * 32))
+        ctx.probe("backend_pure_python")
     W.rec = _Recorder(real_gen)
     saved = BitcoinVM.__dict__["generator_for_signature_type"]
     BitcoinVM.generator_for_signature_type = classmethod(lambda cls, signature_type: W.rec)
@@ -534,10 +575,22 @@ def _do_sign(ctx, W, tx, st, secrets):
                 wifs.append(W.net.keys.private(d, is_compressed=comp).wif())
             W.net.tx_utils.sign_tx(tx, wifs=wifs, p2sh_lookup=build_p2sh_lookup(W.scripts), **kwargs)
         else:
-            ctx.probe("supply_keychain")
             conn = SimConnection()
             kc = W.net.keychain(conn)
-            kc.add_secrets([W.net.keys.private(d) for d in secrets])
+            if supply == "keychain_hd" and W.hd:
+                # a keychain of hierarchical keys: the database holds key paths, the root is the only secret
+                ctx.probe("supply_keychain_hd")
+                root = W.net.keys.bip32_seed(bytes.fromhex(W.hd["seed"]))
+                wanted = set(secrets)
+                paths = [k["path"] for k in W.keys if k.get("path") and k["d"] in wanted]
+                kc.add_key_paths(root, paths)
+                kc.commit()
+                kc.add_secret(root)
+                loose = [d for d in secrets if not any(k["d"] == d and k.get("path") for k in W.keys)]
+                kc.add_secrets([W.net.keys.private(d) for d in loose])
+            else:
+                ctx.probe("supply_keychain")
+                kc.add_secrets([W.net.keys.private(d) for d in secrets])
             kc.add_p2s_scripts(W.scripts)
             if st.get("clear_secrets"):
                 kc.clear_secrets()
@@ -567,7 +620,7 @@ def _op_sign(ctx, W, st):
     before_m, before_u = copy.deepcopy(cp.m), copy.deepcopy(cp.u)
     before_v = _verdicts(W, cp)
     snap_before = cp.obj.as_bin(include_unspents=True) if not cp.obj.missing_unspents() else None
-    faulted = bool(st.get("db_fault") or st.get("clear_secrets")) and st.get("supply") == "keychain"
+    faulted = bool(st.get("db_fault") or st.get("clear_secrets")) and str(st.get("supply")).startswith("keychain")
     res = _do_sign(ctx, W, cp.obj, st, secrets)
     m2, u2 = _read_obj(cp.obj)
     ht_req = st.get("hash_type") or 1
@@ -1282,6 +1335,49 @@ def _op_wire_big(ctx, W, st):
         ctx.violate("C07", "tx-id", {"id": ids[0], "expected": mw.txid_hex(m)})
 
 
+def _op_wire_tx(ctx, W, st):
+    """an arbitrary transaction given literally in the plan crosses the wire in every form"""
+    t = st["tx"]
+    m = {"version": t["version"], "locktime": t["locktime"],
+         "ins": [{"prev": bytes.fromhex(i["prev"]), "idx": i["idx"], "script": bytes.fromhex(i["script"]), "seq": i["seq"],
+                  "witness": [bytes.fromhex(w) for w in i["witness"]]} for i in t["ins"]],
+         "outs": [{"value": o["value"], "script": bytes.fromhex(o["script"])} for o in t["outs"]]}
+    try:
+        tx = _mk_obj(W, m, [None] * len(m["ins"]))
+        raw = tx.as_bin()
+        legacy = tx.as_bin(include_witness_data=False)
+        back = W.Tx.from_bin(raw)
+        raw2 = back.as_bin()
+        viahex = W.Tx.from_hex(tx.as_hex())
+        f = io.BytesIO()
+        tx.stream(f)
+        parsed = W.Tx.parse(io.BytesIO(f.getvalue()))
+        ids = (tx.id(), tx.w_id(), back.id(), back.w_id(), bytes(tx.hash()), bytes(tx.w_hash()))
+    except Exception as e:
+        ctx.violate("C07", "transport-raised", {"enc": "tx", "exc": type(e).__name__, "msg": str(e)[:200]})
+        return
+    exp = mw.enc_tx(m)
+    ctx.obs("wire_tx", len(raw), mw.has_witness(m))
+    if mw.has_witness(m):
+        ctx.probe("wire_tx_witness")
+        if all(not any(i["witness"]) for i in m["ins"]):
+            ctx.probe("wire_tx_witness_only_empty_items")
+    if raw != exp or f.getvalue() != exp:
+        ctx.violate("C07", "wire-bytes", {"enc": "tx", "bip144_expected": mw.has_witness(m), "got": raw.hex()[:100], "expected": exp.hex()[:100],
+                                          "len": [len(raw), len(exp)]})
+    if legacy != mw.enc_tx(m, witness=False):
+        ctx.violate("C07", "wire-bytes", {"enc": "tx-legacy-form"})
+    if raw2 != raw or viahex.as_bin() != raw:
+        ctx.violate("C07", "reserialisation-differs", {"enc": "tx"})
+    for name, obj in (("from_bin", back), ("from_hex", viahex), ("parse", parsed)):
+        if mw.tx_from_pycoin(obj) != m:
+            ctx.violate("C07", "parsed-fields-differ", {"enc": "tx:" + name,
+                                                        "witness_sent": [[len(w) for w in i["witness"]] for i in m["ins"]]})
+            break
+    if ids != (mw.txid_hex(m), mw.wtxid(m)[::-1].hex(), mw.txid_hex(m), mw.wtxid(m)[::-1].hex(), mw.txid(m), mw.wtxid(m)):
+        ctx.violate("C07", "tx-id", {"id": ids[0], "expected": mw.txid_hex(m), "w_id": ids[1], "expected_w_id": mw.wtxid(m)[::-1].hex()})
+
+
 def _op_permute(ctx, W, st):
     """the same signing passes in two different orders on two fresh copies of the unsigned transaction"""
     base = W.copies.get("c0")
@@ -1313,7 +1409,7 @@ def _op_permute(ctx, W, st):
 
 _OPS = {"build": _op_build, "sign": _op_sign, "validate": _op_validate, "fork": _op_fork, "send": _op_send,
         "tamper": _op_tamper, "revert": _op_revert, "sighash": _op_sighash, "readonly": _op_readonly, "permute": _op_permute,
-        "spendables": _op_spendables, "wire_big": _op_wire_big}
+        "spendables": _op_spendables, "wire_big": _op_wire_big, "wire_tx": _op_wire_tx}
 
 
 def normal_form(plan):
